@@ -505,7 +505,7 @@ struct ChainNode {
 
 void run_extra(Ctx &c) {
 	auto &t = c.t;
-	unsigned which = t.pick(8);
+	unsigned which = t.pick(9);
 	int a = 1 + (int)t.pick(6), b = 1 + (int)t.pick(100), d = (int)t.pick(100);
 	c.op("extra battery %u with (%d,%d,%d)", which, a, b, d);
 	c.tagf("extra-%u", which);
@@ -656,6 +656,30 @@ void run_extra(Ctx &c) {
 		  *dst = *src;
 		  VCHECK(c, "C17", (bool)*dst && dst->value().v == d && g_stamp_made.count(&dst->value()), "expected<E,stamp>: assignment over an error did not construct the value");
 		  c.destroy(dst); c.destroy(src); }
+		break; }
+	case 8: {   // expected over error enums of every width (the "no error" value is E{}; every other value is an error, also one whose low 32 bits are 0),
+	            // and optional `o = {}` for scalar and class element types (std::optional becomes empty)
+		c.tag("expected-wide-error-enum");
+		{ enum class E64 : uint64_t { ok = 0, low = 1, hi = uint64_t(1) << 32, top = uint64_t(1) << 63, mix = (uint64_t(1) << 32) | 1 };
+		  for(E64 e : {E64::low, E64::hi, E64::top, E64::mix}) {
+			frg::expected<E64, int> x(e);
+			VCHECK(c, "C17", !x && x.error() == e, "expected<enum : uint64_t, int> constructed from the error %#llx reports %s", (unsigned long long)e, x ? "a value" : "another error");
+			frg::expected<E64, int> y(7); y = x;
+			VCHECK(c, "C17", !y && y.error() == e, "expected<enum : uint64_t, int>: assignment of the error %#llx over a value", (unsigned long long)e);
+			frg::expected<E64, int> z(std::move(x)); VCHECK(c, "C17", !z && z.error() == e, "expected<enum : uint64_t, int>: move construction of the error %#llx", (unsigned long long)e);
+		  }
+		  frg::expected<E64, int> v(a); VCHECK(c, "C17", (bool)v && v.value() == a, "expected<enum : uint64_t, int> holding a value"); }
+		{ enum class E8 : int8_t { ok = 0, neg = -1, min = -128 }; for(E8 e : {E8::neg, E8::min}) { frg::expected<E8, int> x(e); VCHECK(c, "C17", !x && x.error() == e, "expected<enum : int8_t, int> with a negative error code"); } }
+		{ enum class E16 : uint16_t { ok = 0, big = 0x8000, max = 0xffff }; for(E16 e : {E16::big, E16::max}) { frg::expected<E16, int> x(e); VCHECK(c, "C17", !x && x.error() == e, "expected<enum : uint16_t, int> with a large error code"); } }
+		c.tag("optional-assign-empty-braces");
+		{ frg::optional<int> o(a); std::optional<int> r(a); o = {}; r = {}; VCHECK(c, "C17", o.has_value() == r.has_value(), "optional<int>: `o = {}` over an engaged optional leaves it %s, std::optional is %s", o.has_value() ? "engaged" : "empty", r.has_value() ? "engaged" : "empty");
+		  o = {}; r = {}; VCHECK(c, "C17", o.has_value() == r.has_value(), "optional<int>: `o = {}` over an empty optional");
+		  o = a; r = a; VCHECK(c, "C17", o.has_value() && *o == a, "optional<int>: value assignment after `= {}`"); }
+		{ frg::optional<unsigned char> o((unsigned char)5); o = {}; VCHECK(c, "C17", !o.has_value(), "optional<unsigned char>: `o = {}` leaves it engaged"); }
+		{ int t0 = 3; frg::optional<int *> o(&t0); o = {}; VCHECK(c, "C17", !o.has_value(), "optional<int *>: `o = {}` leaves it engaged"); }
+		{ enum Col { red, green }; frg::optional<Col> o(green); o = {}; VCHECK(c, "C17", !o.has_value(), "optional<enum>: `o = {}` leaves it engaged"); }
+		{ frg::optional<Tracked> *o = c.make<frg::optional<Tracked>>(Tracked(b)); *o = {}; VCHECK(c, "C17", !o->has_value(), "optional<Tracked>: `o = {}` leaves it engaged"); c.destroy(o); }
+		{ frg::optional<std::string> o(std::string("text")); o = {}; VCHECK(c, "C17", !o.has_value(), "optional<string>: `o = {}` leaves it engaged"); }
 		break; }
 	}
 	c.check_san("C17");
